@@ -2,11 +2,13 @@
 import contextlib
 import os
 import pickle
+import json
 import shutil
+import subprocess
 import tempfile
 
 from ..check import Divergence, Violation
-from ..lib import driver
+from ..lib import driver, env
 
 ID = "C20"
 LEAN_MODULES = ["TakVerif.Props.C20"]
@@ -367,7 +369,7 @@ def tie(ctx):
     divs = []
     tmp = tempfile.mkdtemp(prefix="c20-")
     try:
-        lines, impl, meta, inter = [], [], [], []
+        lines, impl, meta, inter, xjobs = [], [], [], [], []
         for serial in range(n_file):
             c = gen_file_case(ctx, tmp, serial)
             ftable = table_str(c["data"])
@@ -389,6 +391,15 @@ def tie(ctx):
                 ctx.count("file:field-" + kd)
             held = []
             try:
+                if ctx.rng.random() < 0.4:
+                    # another dataset on the SAME file was used first, truncated differently (a test
+                    # split, an evaluation hook): this one still sees the whole file
+                    from xformer import data as _xd
+
+                    sib = _xd.Dataset(c["path"], batch_size=max(1, c["b"]), batches=ctx.rng.choice([0, 1, 1, 2]), seed=c["seed"])
+                    for _b in sib:
+                        pass
+                    ctx.count("file:sibling-dataset-on-same-file-first")
                 ds = make_dataset(c)
                 eps = run_epochs(ds, k, held)
             except Exception as e:
@@ -452,6 +463,18 @@ def tie(ctx):
                 ctx.count("file:interleaved-iterators")
                 if sum(1 for o in ops if o == "mk") >= 2:
                     ctx.count("file:interleaved-2+-iterators")
+            if len(xjobs) < (12 if ctx.thorough else 4) and c["n"] >= 3:
+                # the same constructor arguments, and a pickle of this process's dataset, in other
+                # interpreters (other hash seeds): the stream depends on the seed alone
+                d4 = make_dataset(c)
+                list(d4)
+                pk = os.path.join(tmp, "x%d.pkl" % serial)
+                with open(pk, "wb") as fh:
+                    pickle.dump(d4, fh)
+                sp = os.path.join(tmp, "x%d.json" % serial)
+                with open(sp, "w") as fh:
+                    json.dump({"c": {kk: c[kk] for kk in ("path", "b", "batches", "seed")}, "pickle": pk, "k": 2}, fh)
+                xjobs.append((dict(desc), sp, base[:2]))
             m = ctx.rng.choice([0, 1, 2])
             d3 = make_dataset(c)
             for _ in range(m):
@@ -466,6 +489,25 @@ def tie(ctx):
         for desc, io, mo in zip(meta, impl, model):
             if io != mo:
                 divs.append(Divergence("corr.dataset", desc, io, mo))
+        procs = []
+        for hs, (xdesc, sp, want) in zip(("1", "2", "3", "4", "5", "6", "7", "8", "9", "10", "11", "12"), xjobs):
+            e = dict(os.environ, PYTHONHASHSEED=hs)
+            procs.append((xdesc, want, subprocess.Popen([env.PYTHON, "-m", "harness.lib.c20_xproc", sp], cwd=env.VERIF, env=e, stdout=subprocess.PIPE, stderr=subprocess.PIPE, text=True)))
+        for xdesc, want, pr in procs:
+            so, se = pr.communicate(timeout=600)
+            ctx.evaluated(2)
+            ctx.count("file:stream-in-another-interpreter")
+            got = None
+            for l in so.splitlines():
+                if l.startswith("C20X "):
+                    got = json.loads(l[5:])
+            if got is None:
+                divs.append(Divergence("impl.determinism", dict(xdesc, check="nondeterministic", where="another interpreter"), "crash: " + se[-200:], "the stream"))
+                continue
+            if got["fresh"] != want:
+                divs.append(Divergence("impl.determinism", dict(xdesc, check="nondeterministic", where="another interpreter (other hash seed)"), got["fresh"], want))
+            if got["restored"] != want:
+                divs.append(Divergence("impl.pickle", dict(xdesc, check="pickle-restart", where="restored in another interpreter"), got["restored"], want))
         for (idesc, _l, its), out in zip(inter, driver.run_lines([l for _d, l, _i in inter])):
             if out != "ok":
                 divs.append(Divergence("impl.interleaved", idesc, "%s: iterators returned %s" % (out, str(its)[:300]), "every iterator yields one epoch of the sequential stream"))
